@@ -1,1 +1,190 @@
-/-! C09 — property theorems (stub: nothing proved yet). -/
+import B6.Model.Containers
+import B6.Lemmas.Varint
+import B6.Lemmas.Containers
+import Std.Tactic.BVDecide
+/-!
+# C09 — Low-level binary containers are lossless
+
+Theorems about `B6.Model.Containers` / `B6.Model.Varint` (hand-written models of encoding/ints.go,
+arrays.go, strings.go, uint64map.go, tied to the code by the byte-level correspondence run of
+`harness/cmd/c09`).  Proofs are in `B6/Lemmas/{Varint,Containers}.lean`; everything is kernel-only except
+`header_ok_of_layout` (the 64-bit header packing, `bv_decide`, same fact as C10 `header_roundtrip`) and what
+depends on it (`map_ok_of_builder`).
+-/
+namespace B6.Props.C09
+open B6.Model.Containers B6.Model.Varint B6.Model.Bits B6.Lemmas.Containers
+
+/-! ## integer sequences -/
+
+/-- delta + zigzag coded `uint64` sequences: every list, every wrap-around delta, any trailing bytes. -/
+theorem delta_roundtrip (vs : List (BitVec 64)) (rest : Bytes) :
+    unmarshalDelta vs.length (marshalDelta vs ++ rest) = some (vs, ((marshalDelta vs).length : Int)) :=
+  B6.Lemmas.Containers.delta_roundtrip vs rest
+
+example : unmarshalDelta 3 (marshalDelta [0x8000000000000000#64, 0#64, 0xffffffffffffffff#64])
+    = some ([0x8000000000000000#64, 0#64, 0xffffffffffffffff#64], 21) := by decide
+
+/-- `MarshalDeltaCodedInts/UnmarshalDeltaCodedInts` are the same functions on two's-complement words; for
+Go `int`s given as integers in the int64 range the decoded integers are the encoded ones. -/
+theorem zigzag_ints_roundtrip (vs : List Int) (h : ∀ v ∈ vs, -2 ^ 63 ≤ v ∧ v < 2 ^ 63) (rest : Bytes) :
+    (unmarshalDelta vs.length (marshalDelta (vs.map (BitVec.ofInt 64)) ++ rest)).map
+      (fun r => r.1.map BitVec.toInt) = some vs := by
+  have := B6.Lemmas.Containers.delta_roundtrip (vs.map (BitVec.ofInt 64)) rest
+  rw [List.length_map] at this
+  rw [this]
+  simp only [Option.map_some, List.map_map, Option.some.injEq]
+  have hid : ∀ v ∈ vs, (BitVec.toInt ∘ BitVec.ofInt 64) v = v := by
+    intro v hv
+    have := h v hv
+    simp only [Function.comp, BitVec.toInt_ofInt]
+    rw [Int.bmod_eq_of_le] <;> omega
+  conv => rhs; rw [← List.map_id vs]
+  exact List.map_congr_left hid
+
+example : (unmarshalDelta 2 (marshalDelta ([-9223372036854775808, 5].map (BitVec.ofInt 64)))).map
+    (fun r => r.1.map BitVec.toInt) = some [-9223372036854775808, 5] := by decide
+
+/-- the zigzag pair under the delta coding is a bijection on 64-bit words (also C10 `zigzag64`). -/
+theorem zigzag_roundtrip (x : BitVec 64) : zigzagDecode (zigzagEncode x) = x := zigzagDecode_zigzagEncode x
+
+/-- before the repair of `ZigzagDecode` the sequence `[2^63]` read back as `[0]`. -/
+theorem delta_old_counterexample :
+    0#64 + zigzagDecodeArith (BitVec.ofNat 64 (zigzagEncode (0x8000000000000000#64 - 0#64)).toNat)
+      ≠ 0x8000000000000000#64 := by decide
+
+/-- `UnmarshalUint64(l, MarshalUint64(v, l)) = v` for every `l ≥ Uint64Length(v)` (also `l > 8`). -/
+theorem fixed_width_roundtrip (v l : Nat) (hv : v < 2 ^ 64) (hl : uint64Length v ≤ l) (rest : Bytes) :
+    unmarshalUint64 l (marshalUint64 v l ++ rest) = some v :=
+  unmarshal_marshalUint64_append v l hv hl rest
+
+example : unmarshalUint64 3 (marshalUint64 70000 3 ++ [9]) = some 70000 := by decide
+
+/-- too few bytes lose the value — the hypothesis `Uint64Length v ≤ l` is needed. -/
+theorem fixed_width_short_counterexample : unmarshalUint64 1 (marshalUint64 256 1) ≠ some 256 := by decide
+
+/-- varints are a prefix code (used by every container below). -/
+theorem uvarint_prefix (v : Nat) (hv : v < 2 ^ 64) (rest : Bytes) :
+    uvarint (putUvarint v ++ rest) = some (v, (putUvarint v).length) := uvarint_putUvarint_append v hv rest
+
+/-! ## byte arrays -/
+
+/-- **any reservation / write order**: with `res[i]` bytes reserved for item `i` and the `WriteItem` calls
+`ws` (item, buffers) in any order filling every item exactly, no call panics and `Item(i)` returns the
+concatenation of the writes to `i` — for every `i`. -/
+theorem bytearrays_item (res : List Nat) (ws : List (Nat × List Bytes))
+    (hn : res.length < 2 ^ 32) (ht : res.sum < 2 ^ 64)
+    (hitems : ∀ x ∈ ws, x.1 < res.length)
+    (hexact : ∀ j (hj : j < res.length), (written ws j).length = res[j]) :
+    ∃ w, runWrites (baStart res) ws = some w ∧
+      ∀ i, i < res.length → baItem w.out i = some (written ws i) :=
+  B6.Lemmas.Containers.bytearrays_item res ws hn ht hitems hexact
+
+example : (runWrites (baStart [3, 0, 2]) [(2, [[7]]), (0, [[1], [2, 3]]), (2, [[8]])]).bind
+    (fun w => baItem w.out 2) = some [7, 8] := by decide
+
+/-- the reader alone: item `i` of header ++ data is the slice the pointer table delimits. -/
+theorem bytearrays_read (res : List Nat) (D : Bytes) (i : Nat)
+    (hn : res.length < 2 ^ 32) (ht : res.sum < 2 ^ 64) (hi : i < res.length)
+    (hD : (res.take (i + 1)).sum ≤ D.length) :
+    baItem (baHeader res ++ D) i = some ((D.drop (res.take i).sum).take res[i]) :=
+  B6.Lemmas.Containers.bytearrays_read res D i hn ht hi hD
+
+/-! ## string table -/
+
+/-- whatever order the builder puts the strings in (`table`; the Go code sorts a map by count with an
+unstable sort), `StringTable.Lookup(i)` returns `table[i]`, i.e. the index the builder reports for a string
+reads back that string. -/
+theorem stringtable_lookup (table : List Bytes) (i : Nat) (hi : i < table.length)
+    (hn : table.length < 2 ^ 32) (ht : (table.map List.length).sum < 2 ^ 64) :
+    stLookup (stEncode table) i = some table[i] :=
+  bytearrays_encode_item table i hi hn ht
+
+example : stLookup (stEncode [[104, 119], [], [110, 97, 109, 101]]) 2 = some [110, 97, 109, 101] := by decide
+
+/-! ## uint64 map -/
+
+/-- every layout with `TagBits ≤ BucketBits ≤ 63` and every tag below `2^TagBits` gives an invertible
+bucket header (the 64-bit fact proved from the source text in C10 `header_roundtrip`; `bv_decide`). -/
+theorem header_ok_of_layout (b t : BitVec 64) (e : Entry) (hl : layoutOK b t = true)
+    (htag : e.tag < (1#64 <<< t)) : HeaderOK b t e := by
+  have hb : b ≤ 63#64 ∧ t ≤ b := by
+    simp only [layoutOK, Bool.and_eq_true, decide_eq_true_eq] at hl
+    exact ⟨hl.2, hl.1⟩
+  obtain ⟨hb1, hb2⟩ := hb
+  unfold HeaderOK headerUnpackID bucketForID headerPack headerUnpackTag
+  generalize e.id = id at *
+  generalize e.tag = tag at *
+  bv_decide (config := { timeout := 900 })
+
+/-- the layout `NewUint64MapBuilder(b, t)` really uses is always inside that domain (kernel-only). -/
+theorem builder_layout_ok (b t : BitVec 64) (hb : b ≤ 63#64) (ht : t ≤ 63#64) :
+    layoutOK (builderLayout b t).1 (builderLayout b t).2 = true ∧ (builderLayout b t).2 = t := by
+  unfold builderLayout layoutOK
+  by_cases h : BitVec.slt b t = true
+  · rw [if_pos h]; simp [ht]
+  · rw [if_neg h]
+    have hle : t ≤ b := by
+      simp only [BitVec.slt, decide_eq_true_eq, Int.not_lt] at h
+      have h1 : b.toInt = b.toNat := by
+        rw [BitVec.toInt_eq_toNat_of_lt]; have : b.toNat ≤ 63 := hb; omega
+      have h2 : t.toInt = t.toNat := by
+        rw [BitVec.toInt_eq_toNat_of_lt]; have : t.toNat ≤ 63 := ht; omega
+      rw [h1, h2] at h
+      show t.toNat ≤ b.toNat
+      omega
+    simp [hle, hb]
+
+/-- a map written by the builder (any requested bits, tags that fit, addressable size) is well formed. -/
+theorem map_ok_of_builder (b t : BitVec 64) (es : List Entry) (hb : b ≤ 31#64) (ht : t ≤ 31#64)
+    (htags : ∀ e ∈ es, e.tag < (1#64 <<< t) ∧ e.data.length < 2 ^ 63)
+    (hsize : (mapEncode (builderLayout b t).1 (builderLayout b t).2 es).length < 2 ^ 64) :
+    MapOK (builderLayout b t).1 (builderLayout b t).2 es := by
+  have hb' : b.toNat ≤ 31 := hb
+  have ht' : t.toNat ≤ 31 := ht
+  have hl := builder_layout_ok b t (by show b.toNat ≤ 63; omega) (by show t.toNat ≤ 63; omega)
+  have h1 : (builderLayout b t).1 ≤ 31#64 := by
+    unfold builderLayout; split <;> assumption
+  refine ⟨h1, by rw [hl.2]; show t.toNat ≤ 255; omega, ?_, hsize⟩
+  intro e he
+  exact ⟨header_ok_of_layout _ _ e hl.1 (by rw [hl.2]; exact (htags e he).1), (htags e he).2⟩
+
+/-- **FillTagged** returns exactly the entries written under the id, in write order. -/
+theorem map_fill_tagged (b t : BitVec 64) (es : List Entry) (h : MapOK b t es) (id : BitVec 64) :
+    ∃ mv, mapOpen (mapEncode b t es) = some mv ∧
+      mapFillTagged mv id = some (es.filter fun e => e.id == id) :=
+  B6.Lemmas.Containers.map_fill_tagged b t es h id
+
+/-- **FindFirst** returns the first of them, or "not found" when the id was never written. -/
+theorem map_find_first (b t : BitVec 64) (es : List Entry) (h : MapOK b t es) (id : BitVec 64) :
+    ∃ mv, mapOpen (mapEncode b t es) = some mv ∧
+      mapFindFirst mv id = some (es.find? fun e => e.id == id) :=
+  B6.Lemmas.Containers.map_find_first b t es h id
+
+theorem map_find_first_with_tag (b t : BitVec 64) (es : List Entry) (h : MapOK b t es) (id tag : BitVec 64) :
+    ∃ mv, mapOpen (mapEncode b t es) = some mv ∧
+      mapFindFirstWithTag mv id tag = some (es.find? fun e => e.id == id && e.tag == tag) :=
+  B6.Lemmas.Containers.map_find_first_with_tag b t es h id tag
+
+/-- **iteration** (`Begin/Next`, `EachItem`) visits every written id, no id twice, each visit with exactly
+the entries written under it (as a multiset: the Go sort is unstable). -/
+theorem map_iterate (b t : BitVec 64) (es : List Entry) (h : MapOK b t es) :
+    ∃ mv gs, mapOpen (mapEncode b t es) = some mv ∧ mapIterate mv = some gs ∧
+      gs.Pairwise (fun p q => p.1 ≠ q.1) ∧
+      (∀ p ∈ gs, p.2 ≠ [] ∧ p.2.Perm (es.filter fun e => e.id == p.1)) ∧
+      (∀ e ∈ es, ∃ p ∈ gs, p.1 = e.id) :=
+  B6.Lemmas.Containers.map_iterate b t es h
+
+/-- non-vacuity + the DESIGN §7 witness on the repaired layout: requested (1, 2), id 2^63+5. -/
+example : (mapOpen (mapEncode (builderLayout 1#64 2#64).1 (builderLayout 1#64 2#64).2
+      [⟨0x8000000000000005#64, 1#64, [0xaa]⟩, ⟨5#64, 2#64, []⟩, ⟨0x8000000000000005#64, 3#64, [1, 2]⟩])).bind
+      (fun mv => mapFillTagged mv 0x8000000000000005#64)
+    = some [⟨0x8000000000000005#64, 1#64, [0xaa]⟩, ⟨0x8000000000000005#64, 3#64, [1, 2]⟩] := by decide
+
+/-- before the repair the builder used the requested layout (1, 2) as is, and the entry written under
+2^63+5 was not found (`FindFirst` = not found on the real code, DESIGN §7). -/
+theorem map_topbit_counterexample :
+    (mapOpen (mapEncode (builderLayoutOld 1#64 2#64).1 (builderLayoutOld 1#64 2#64).2
+      [⟨0x8000000000000005#64, 1#64, [0xaa]⟩])).bind (fun mv => mapFindFirst mv 0x8000000000000005#64)
+    = some none := by decide
+
+end B6.Props.C09
